@@ -104,7 +104,7 @@ def stripCRLF (b : List Nat) : List Nat :=
 /-- `Attachment.content`; `raw` is the part body as the MIME decoder returns it -/
 def attachmentContent (te : TE) (raw : List Nat) : Option (List Nat) :=
   match te with
-  | .base64 => Base64.decode (raw.map Char.ofNat)
+  | .base64 => Base64.decodeLenient (raw.map Char.ofNat)   -- `base64.b64decode(content)`, not validating: line breaks of a folded body are skipped
   | .binary => some (stripCRLF raw)
   | .other => some raw
 
